@@ -933,6 +933,11 @@ def _glob_sorted(w, pattern):
     return [p for p in sorted(globmod.glob(pattern)) if os.path.isfile(p)]
 
 
+def _glob_pathsorted(w, pattern):
+    """sorted() over Path objects (component lists compared), what the code does since d9a79c3"""
+    return [str(q) for q in sorted(__import__('pathlib').Path(x) for x in _glob_dirorder(w, pattern))]
+
+
 def _glob_dirorder(w, pattern):
     from pathlib import Path
     if pattern.startswith('~/'):
@@ -988,6 +993,17 @@ def gen_inline_program(rng, w, client, flavour):
     tok = flavour == 'expansion'
     nfiles = 1 if flavour == 'expansion' else rng.randint(2, 6)
     confd = os.path.join(sshdir, 'conf.d')
+    if flavour == 'order2':
+        # a wildcard directory level where one name is a prefix of another: "conf" / "conf.d" / "conf-x"
+        files = {}
+        for k, dn in enumerate(rng.sample(['conf', 'conf.d', 'conf-x', 'conf+', 'confz'], rng.randint(2, 4))):
+            files[os.path.join(sshdir, dn, 'x.cfg')] = ('Port %d\nSendEnv D%d\n' % (4000 + k, k)) if client else \
+                ('Port %d\nHostKey hk%d\n' % (4000 + k, k))
+        p = os.path.join(d, 'main0')
+        files[p] = 'Include ' + rng.choice([rel + '/*/x.cfg', '~/.ssh/' + rel + '/conf*/x.cfg', sshdir + '/*/x.cfg']) + '\n' + opt(False) + '\n'
+        for q, t in files.items():
+            w.write(q, t)
+        return {'main': [p], 'files': files, 'dirs': [sshdir], 'dir': d}
     for nme in names[:nfiles]:
         lines = []
         for _ in range(rng.randint(1, 4)):
@@ -1022,7 +1038,7 @@ def stage_include_oracle(ctx, w):
     stats = {'same': 0, 'differ': 0}
     for i in range(n):
         client = rng.random() < 0.75
-        flavour = 'expansion' if i % 2 == 0 else 'order'
+        flavour = ['expansion', 'order', 'expansion', 'order', 'order2'][i % 5]
         prog = gen_inline_program(rng, w, client, flavour)
         main = prog['main'][0]
         text = prog['files'][main]
@@ -1042,15 +1058,20 @@ def stage_include_oracle(ctx, w):
             stats['same'] += 1
             continue
         stats['differ'] += 1
-        alt = os.path.join(prog['dir'], 'inlined_dirorder')
-        w.write(alt, inline_text(w, text, _glob_dirorder))
-        cause = 'glob_order' if canon_result(run([alt])) == canon_result(r_inc) else 'expansion_per_file'
+        # attribute the difference: does inlining in another order reproduce what the Include line gave?
+        cause = 'expansion_per_file'
+        for name, globber in (('glob_sort_componentwise', _glob_pathsorted), ('glob_order', _glob_dirorder)):
+            alt = os.path.join(prog['dir'], 'inlined_' + name)
+            w.write(alt, inline_text(w, text, globber))
+            if canon_result(run([alt])) == canon_result(r_inc):
+                cause = name
+                break
         ctx.count('include_inline_differs.' + cause, group='oracle')
         report(
             ctx, 'include_inline:' + cause,
             f'Include is not read in place ({cause}): with the Include line the program resolves to '
             f'{canon_result(r_inc)!r}, with the selected files written in its place to {canon_result(r_inl)!r}',
-            {'kind': 'include_inline', 'cause': cause, 'client': client, 'files': rel_files(w, prog['files']),
+            {'kind': 'include_inline', 'class': cause, 'cause': cause, 'client': client, 'files': rel_files(w, prog['files']),
              'main': main.replace(w.root, '@ROOT@'), 'host': host, 'user': None if user == () else user,
              'port': None if port == () else port, 'server_user': suser,
              'with_include': canon_result(r_inc), 'inlined': canon_result(r_inl)})
@@ -1093,7 +1114,7 @@ def stage_multipath_oracle(ctx, w):
                 ctx, 'multipath:expansion_per_file',
                 f'config files {texts!r} given as a list resolve to {canon_result(r_list)!r} but their concatenation '
                 f'resolves to {canon_result(r_cat)!r} (values of the first file are expanded twice)',
-                {'kind': 'multipath', 'texts': texts, 'host': host, 'user': None if user == () else user,
+                {'kind': 'multipath', 'class': 'expansion_per_file', 'texts': texts, 'host': host, 'user': None if user == () else user,
                  'port': None if port == () else port, 'as_list': canon_result(r_list), 'concatenated': canon_result(r_cat)})
 
 
@@ -1138,6 +1159,58 @@ def stage_firstwins_oracle(ctx, w, client_keep):
         ctx.broke('vacuity:firstwins_oracle', f'only {checked} programs checked')
 
 
+def stage_final_registered(ctx, w):
+    """a "final" keyword anywhere on a Match line requests the final pass (whatever the other criteria of the line
+    say in the first pass), and a block "Match host <canonical name> final" applies in that pass"""
+    from asyncssh.config import SSHClientConfig
+    rng = ctx.rng
+    n = 150 if ctx.tier == 'thorough' else 40
+    d, rel = w.case_dir()
+    for i in range(n):
+        host = rng.choice(['web', 'db', 'host'])
+        before = [rng.choice(['host web', 'host db', 'user nobody', 'originalhost h*t', '!host *', 'localuser nobody',
+                              'host *.example.test', 'all', 'canonical', '!canonical'])
+                  for _ in range(rng.randint(1, 2))]
+        if 'all' in before:
+            before = ['canonical']
+        fin = rng.choice(['final', '!final', 'FINAL', 'Final'])
+        after = [rng.choice(['host *', 'user *'])] if rng.random() < 0.3 else []
+        line = 'Match ' + ' '.join(before + [fin] + after)
+        text = rng.choice(['', 'Compression yes\n', 'Host nothing\n']) + line + '\nPort 2202\n'
+        q = os.path.join(d, 'f%d' % i)
+        w.write(q, text)
+        r, cfg = load_client([q], host)
+        ctx.note_case(('final_registered', text, host), nontrivial=True)
+        if r[0] == 'ok' and not r[2]:
+            ctx.count('final_not_registered', group='oracle')
+            report(ctx, 'final_registered',
+                   f'config {text!r} for host {host!r}: the Match line names "final" but has_match_final() is False, so '
+                   f'the final pass would not be requested',
+                   {'kind': 'final_registered', 'class': 'final_not_registered', 'text': text, 'host': host})
+    # the documented use: the block only matches the canonical name, i.e. in the final pass
+    for crit, canon in (('host *.example.test', 'web.example.test'), ('host web.example.test', 'web.example.test'),
+                        ('!host web', 'web.example.test')):
+        for tail in ('final', 'final user *'):
+            text = 'Match %s %s\n  Port 2202\n  BindAddress 10.0.0.2\nMatch host *.example.test\n  Port 2203\n' % (crit, tail)
+            q = os.path.join(d, 'c%d' % abs(hash((crit, tail)) % 10 ** 6))
+            w.write(q, text)
+            try:
+                first = SSHClientConfig.load(None, [q], False, False, False, 'luser', (), 'web', ())
+                second = SSHClientConfig.load(first, [q], True, True, bool(first.has_match_final()), 'luser', (),
+                                              canon, ())
+                got = (bool(first.has_match_final()), second.get('Port'), second.get('BindAddress'))
+            except Exception as e:  # noqa
+                got = ('error', classify(e), None)
+            ctx.note_case(('canonical_final_block', text), nontrivial=True)
+            if got != (True, 2202, '10.0.0.2'):
+                ctx.count('canonical_final_block_differs', group='oracle')
+                report(ctx, 'final_registered',
+                       f'config {text!r}: resolving "web" and then, as connection.py does after canonicalisation, '
+                       f'{canon!r} gives (final pass requested, Port, BindAddress) = {got!r}; ssh applies the block in '
+                       f'the final pass: (True, 2202, "10.0.0.2")',
+                       {'kind': 'final_registered', 'class': 'final_not_registered', 'text': text, 'host': 'web'})
+
+
 def stage_purity_oracle(ctx, w):
     """loading a config on top of another one (last_config) must not change the earlier one, and loading it twice must
     give the same answer"""
@@ -1163,14 +1236,57 @@ def stage_purity_oracle(ctx, w):
         r2, _ = load_client([b], host, last=parent)
         ctx.note_case(('purity', ta, tb, host), nontrivial=True)
         problem = None
+        changed = []
         if before != after:
             problem = f'parent config changed from {before!r} to {after!r} when a child config was loaded on top of it'
+            changed = sorted(k for k in set(before[1]) | set(after[1]) if before[1].get(k) != after[1].get(k))
         elif canon_result(r1) != canon_result(r2):
             problem = f'the same child config resolved to {canon_result(r1)!r} and then to {canon_result(r2)!r}'
+            a1, a2 = canon_result(r1), canon_result(r2)
+            changed = sorted(k for k in set(a1[1]) | set(a2[1]) if a1[1].get(k) != a2[1].get(k)) \
+                if a1[0] == a2[0] == 'ok' else ['<error>']
         if problem:
-            ctx.count('purity_differs', group='oracle')
-            report(ctx, 'purity', f'list options leak between config objects: {problem}; parent {ta!r} child {tb!r}',
-                              {'kind': 'purity', 'parent': ta, 'child': tb, 'host': host, 'problem': problem})
+            ks = kinds(True)
+            cls = 'list_aliasing' if changed and all(ks.get(k) in ('KAppendString', 'KAppendStringList') for k in changed) \
+                else 'other'
+            ctx.count('purity_differs.' + cls, group='oracle')
+            report(ctx, 'purity:' + cls, f'options leak between config objects ({cls}): {problem}; parent {ta!r} child {tb!r}',
+                   {'kind': 'purity', 'class': cls, 'changed': changed, 'parent': ta, 'child': tb, 'host': host,
+                    'problem': problem})
+    # values inherited from last_config were expanded when the earlier config was loaded; they must not be expanded again
+    for i in range(n):
+        d, rel = w.case_dir()
+        a = os.path.join(d, 'parent')
+        b = os.path.join(d, 'child')
+        ta = ''.join(rng.choice(['IdentityFile id_%%h\n', 'CertificateFile c%%%%d\n', 'IdentityAgent %%d/agent\n', 'IdentityFile k_%h\n',
+                                 'Port 22\n', 'IdentityFile plain\n']) for _ in range(rng.randint(1, 3)))
+        tb = rng.choice(['Port 23\n', 'Compression yes\n', 'Tag t\n', 'IdentityFile other\n'])
+        w.write(a, ta)
+        w.write(b, tb)
+        host = rng.choice(HOSTS)
+        rp, parent = load_client([a], host)
+        if rp[0] != 'ok':
+            continue
+        rc, _ = load_client([b], host, last=parent)
+        ctx.note_case(('inherited', ta, tb, host), nontrivial='%%' in ta)
+        if rc[0] != 'ok':
+            bad = ['<' + rc[1] + '>']
+        else:
+            bad = []
+            for k, v in rp[1].items():
+                got = rc[1].get(k, SENT)
+                if isinstance(v, list) and isinstance(got, list):
+                    got = got[:len(v)]
+                if got != v and not (k == 'Port'):
+                    bad.append(k)
+        if bad:
+            cls = 'inherited_reexpansion' if '%%' in ta and all(k in ('IdentityFile', 'CertificateFile', 'IdentityAgent') for k in bad) \
+                else 'other'
+            ctx.count('inherited_differs.' + cls, group='oracle')
+            report(ctx, 'inherited:' + cls,
+                   f'values inherited from an earlier config are expanded again ({cls}): parent {ta!r} resolved to '
+                   f'{canon_result(rp)!r}; a child config {tb!r} loaded on top of it resolves to {canon_result(rc)!r}',
+                   {'kind': 'inherited', 'class': cls, 'changed': bad, 'parent': ta, 'child': tb, 'host': host})
 
 
 def stage_expansion_oracle(ctx, w):
@@ -1203,9 +1319,9 @@ def stage_expansion_oracle(ctx, w):
                 lit = rng.choice(['/', 'id_', '.key', '-', 'x y', '~/', '$', '{', '}', 'a$b', '$' + '{'])
                 segs.append((lit, lit))
         template = ''.join(a for a, b in segs)
-        if '${' in ''.join(a for a, b in segs if a == b) and '}' in template:
-            continue        # an accidental reference made of literals
         want = ''.join(b for a, b in segs)
+        if '${' in ''.join(a for a, b in segs if a == b) and ('}' in template or '}' in want):
+            continue        # an unterminated / accidental reference written in the template itself: not a documented form
         p = os.path.join(d, 'e%d' % i)
         text = ('Hostname %s\n' % hostname if hostname else '') + 'IdentityFile "%s"\n' % template.replace('\\', '\\\\').replace('"', '\\"')
         w.write(p, text)
@@ -1215,13 +1331,17 @@ def stage_expansion_oracle(ctx, w):
         if got == [want]:
             ctx.count('expansion_oracle.ok')
             continue
-        cause = 'two_pass_env_in_token_value' if ('${' in user and '%r' in template) else 'other'
+        # attribution: is the answer what "%c first, then ${name} over the result" gives?
+        def _env(m):
+            return w.environ().get(m.group(1), '<unset>')
+        two_pass = re.sub(r'\$\{(.*?)\}', _env, ''.join(b if a.startswith('%') else a for a, b in segs))
+        cause = 'two_pass_env_in_token_value' if ('${' in user and '%r' in template and got == [two_pass]) else 'other'
         ctx.count('expansion_differs.' + cause, group='oracle')
         report(
             ctx, 'expansion:' + cause,
             f'IdentityFile template {template!r} for host={host!r} user={user!r} port={port!r} Hostname={hostname!r} resolved to '
             f'{got if res[0] == "ok" else canon_result(res)!r}, the documented expansion of its pieces is {want!r} ({cause})',
-            {'kind': 'expansion', 'cause': cause, 'template': template, 'host': host, 'user': user,
+            {'kind': 'expansion', 'class': cause, 'cause': cause, 'template': template, 'host': host, 'user': user,
              'port': None if port == () else port, 'hostname': hostname, 'want': want, 'text': text})
 
 
@@ -1396,6 +1516,107 @@ def ssh_norm(kind, vals):
     return vals
 
 
+def ssh_diffs(r, out, base, two):
+    """differences between an asyncssh result and ssh -G output on the common option subset"""
+    if r[0] != 'ok':
+        return [('<load>', canon_result(r), 'accepted by ssh')]
+    diffs = []
+    for name, (key, kind) in SSH_OPTS.items():
+        theirs = out.get(key, [])
+        if name in r[1]:
+            if kind == 'multi' and any(('%' in x or '${' in x or x.startswith('~')) for x in r[1][name]):
+                continue
+            mine = ssh_render(kind, r[1][name])
+        else:
+            mine = base.get(key, [])
+        if kind == 'multi' and (two or name != 'SendEnv'):
+            mine, theirs = dedupe(mine), dedupe(theirs)
+        if ssh_norm(kind, mine) != ssh_norm(kind, theirs):
+            diffs.append((name, mine, theirs))
+    return diffs
+
+
+def _host_as_match_host(line):
+    """in ssh's final pass a Host line is matched against the name after Hostname, like "Match host" """
+    m = re.match(r'^(\s*)host[ \t=]+(.*)$', line, re.I)
+    if not m:
+        return line
+    return m.group(1) + 'Match host ' + ','.join(m.group(2).split())
+
+
+def resolve_like(w, main, host, user, port, luser, mode, prog=None):
+    """asyncssh's answer for a file.  mode 'actual': what connection.py does (first pass; if it met "Match final", a
+    second pass from scratch with final=True).  modes 'on_top' / 'on_top_canonical' emulate, with the real loader, what
+    ssh does instead: the second pass is applied on top of the first pass' options (the host name being fixed by
+    then and Host lines being matched against it), with "canonical" false / true.
+    Returns (result, second pass taken)."""
+    r1, c1 = load_client([main], host, user, port, False, False, local_user=luser)
+    if r1[0] != 'ok' or not r1[2]:
+        return r1, False
+    if mode == 'actual':
+        return load_client([main], host, user, port, False, True, local_user=luser)[0], True
+    hfile = os.path.join(os.path.dirname(main), 'hostname_fixed')
+    # ssh fixes the host name and fills the canonicalisation defaults between the two passes
+    w.write(hfile, 'Hostname "%s"\nCanonicalizeMaxDots 1\n' % r1[1].get('Hostname', host))
+    main2 = rewrite_tree(w, prog, _host_as_match_host, '_fp') if prog else main
+    r2, _ = load_client([hfile, main2], host, user, port, mode == 'on_top_canonical', True, local_user=luser, last=c1)
+    return r2, True
+
+
+def rewrite_tree(w, prog, fn, suffix):
+    """copy of a program's files under <dir><suffix> with fn applied to every line; returns the new main path"""
+    d = prog['dir']
+    for q, t in prog['files'].items():
+        t2 = '\n'.join(fn(ln) for ln in t.replace(d + '/', d + suffix + '/').split('\n'))
+        w.write(q.replace(d + '/', d + suffix + '/'), t2)
+    return prog['main'][0].replace(d + '/', d + suffix + '/')
+
+
+def _host_comma_as_ssh(line):
+    """ssh does not split Host arguments at commas: an argument with a comma is one pattern that no plain host name
+    matches"""
+    m = re.match(r'^(\s*host[ \t=]+)(.*)$', line, re.I)
+    if not m:
+        return line
+    toks = []
+    for t in m.group(2).split():
+        if ',' in t:
+            if not t.startswith('!'):
+                toks.append('no-such-host-xyz')
+        else:
+            toks.append(t)
+    return m.group(1) + ' '.join(toks or ['no-such-host-xyz'])
+
+
+def _backslash_as_ssh(line):
+    """ssh keeps a backslash in front of an ordinary character; written twice, shlex keeps it too"""
+    return line.replace('\\', '\\\\')
+
+
+def has_host_comma(files):
+    return any(re.match(r'^\s*host[ \t=]+.*\S,\S', ln, re.I) for t in files.values() for ln in t.split('\n'))
+
+
+def attribute_ssh_difference(w, prog, host, user, port, luser, out, base):
+    """which known way of reading the file differently from ssh, if any, accounts completely for the difference"""
+    main = prog['main'][0]
+    text = '\n'.join(prog['files'].values()).lower()
+    tries = []
+    if 'final' in text:
+        tries.append(('final_pass_restart', main, 'on_top'))
+        if 'canonical' in text:
+            tries.append(('canonical_final', main, 'on_top_canonical'))
+    if has_host_comma(prog['files']):
+        tries.append(('host_comma', rewrite_tree(w, prog, _host_comma_as_ssh, '_hc'), 'actual'))
+    if '\\' in text:
+        tries.append(('backslash', rewrite_tree(w, prog, _backslash_as_ssh, '_bs'), 'actual'))
+    for cls, path, mode in tries:
+        r, two = resolve_like(w, path, host, user, port, luser, mode, prog if path == main else None)
+        if not ssh_diffs(r, out, base, two):
+            return cls
+    return 'unexplained'
+
+
 def stage_ssh_oracle(ctx, w):
     if not os.access(SSH, os.X_OK):
         ctx.cov['oracle']['ssh_G'] = 'unavailable'
@@ -1423,38 +1644,19 @@ def stage_ssh_oracle(ctx, w):
             if rejected <= 2:
                 ctx.sample({'ssh_rejected': {'config': prog['files'][main], 'stderr': err}}, limit=9)
             continue
-        r1, c1 = load_client([main], host, user, port, False, False, local_user=luser)
-        two = False
-        if r1[0] == 'ok' and r1[2]:
-            two = True
-            r1, c1 = load_client([main], host, user, port, False, True, local_user=luser)
+        r1, two = resolve_like(w, main, host, user, port, luser, 'actual')
         ctx.note_case(('ssh_G', tuple(sorted(prog['files'].values())), host, user, port), nontrivial=True)
-        if r1[0] != 'ok':
-            diffs = [('<load>', canon_result(r1), 'accepted by ssh')]
-        else:
-            diffs = []
-            for name, (key, kind) in SSH_OPTS.items():
-                theirs = out.get(key, [])
-                if name in r1[1]:
-                    if kind == 'multi' and any(('%' in x or '${' in x or x.startswith('~')) for x in r1[1][name]):
-                        continue
-                    mine = ssh_render(kind, r1[1][name])
-                else:
-                    mine = base.get(key, [])
-                if kind == 'multi' and (two or name != 'SendEnv'):
-                    mine, theirs = dedupe(mine), dedupe(theirs)
-                if ssh_norm(kind, mine) != ssh_norm(kind, theirs):
-                    diffs.append((name, mine, theirs))
+        diffs = ssh_diffs(r1, out, base, two)
         if not diffs:
             agree += 1
             continue
-        cause = {'base': 'unexplained', 'glob': 'glob_order', 'final': 'final_pass_restart'}.get(flavour, flavour)
+        cause = attribute_ssh_difference(w, prog, host, user, port, luser, out, base)
         ctx.count('ssh_G_differs.' + cause, group='oracle')
         report(
             ctx, 'ssh_G:' + cause,
             f'ssh -G resolves differently ({cause}): {diffs[:4]!r} (option, asyncssh, ssh) for host={host!r} user={user!r} '
             f'port={port!r}; main config {prog["files"][main]!r}, all files {rel_files(w, prog["files"])!r}',
-            {'kind': 'ssh_G', 'cause': cause, 'files': rel_files(w, prog['files']), 'main': main.replace(w.root, '@ROOT@'),
+            {'kind': 'ssh_G', 'class': cause, 'cause': cause, 'files': rel_files(w, prog['files']), 'main': main.replace(w.root, '@ROOT@'),
              'host': host, 'user': None if user == () else user, 'port': None if port == () else port, 'diffs': diffs[:6]})
     ctx.count('ssh_G.agree', agree)
     ctx.cov['oracle']['ssh_G'] = {'programs': n, 'agree': agree, 'rejected_by_ssh': rejected}
@@ -1480,6 +1682,9 @@ def run(ctx):
         'non-ASCII text, Windows path handling, option plumbing in connection.py beyond the first/final pass',
         '/usr/bin/ssh -G (OpenSSH 9.2) is trusted as the reference for the common option subset; '
         'glob.glob(sorted) is trusted as the order in which ssh reads Include matches',
+        'a disagreement with ssh is attributed to a known finding only after re-resolving the same files with the real '
+        'loader in the way ssh reads them (second pass on top of the first, canonical true, comma / backslash kept) '
+        'removes the whole difference; anything left over is reported as unexplained',
     ]
     core.setup_paths()
     ctx.prove()
@@ -1487,7 +1692,7 @@ def run(ctx):
     try:
         client_keep = []
         for st in (stage_tables, stage_units, stage_client_configs, stage_server_configs, stage_two_pass, stage_users,
-                   stage_firstwins_oracle, stage_include_oracle, stage_purity_oracle, stage_ssh_oracle,
+                   stage_firstwins_oracle, stage_final_registered, stage_include_oracle, stage_purity_oracle, stage_ssh_oracle,
                    stage_multipath_oracle, stage_expansion_oracle):
             if st is stage_tables or st is stage_units:
                 st(ctx)
@@ -1558,6 +1763,31 @@ def replay(rp):
             print('parent after :', after)
             print('child 1st/2nd:', canon_result(r1), canon_result(r2))
             return 1 if (before != after or canon_result(r1) != canon_result(r2)) else 0
+        if kind == 'inherited':
+            d, _ = w.case_dir()
+            a, b = os.path.join(d, 'parent'), os.path.join(d, 'child')
+            w.write(a, rp['parent'])
+            w.write(b, rp['child'])
+            r0, parent = load_client([a], rp['host'])
+            rc, _ = load_client([b], rp['host'], last=parent)
+            print('parent:', canon_result(r0))
+            print('child :', canon_result(rc))
+            if r0[0] != 'ok' or rc[0] != 'ok':
+                return 1 if r0[0] == 'ok' else 0
+            for k, v in r0[1].items():
+                got = rc[1].get(k, SENT)
+                if isinstance(v, list) and isinstance(got, list):
+                    got = got[:len(v)]
+                if got != v and k != 'Port':
+                    return 1
+            return 0
+        if kind == 'final_registered':
+            d, _ = w.case_dir()
+            q = os.path.join(d, 'cfg')
+            w.write(q, rp['text'])
+            r, _ = load_client([q], rp['host'], user, port)
+            print('result:', canon_result(r))
+            return 1 if (r[0] == 'ok' and not r[2]) else 0
         if kind == 'expansion':
             d, _ = w.case_dir()
             q = os.path.join(d, 'e')
@@ -1599,28 +1829,11 @@ def replay(rp):
             if out is None:
                 print('ssh rejects the file:', err)
                 return 0
-            r1, _ = load_client([main], rp['host'], user, port, False, False, local_user=luser)
-            two = r1[0] == 'ok' and r1[2]
-            if two:
-                r1, _ = load_client([main], rp['host'], user, port, False, True, local_user=luser)
-            if r1[0] != 'ok':
-                print('asyncssh:', canon_result(r1), 'ssh accepts')
-                return 1
-            bad = 0
-            for name, (key, knd) in SSH_OPTS.items():
-                theirs = out.get(key, [])
-                if name in r1[1]:
-                    if knd == 'multi' and any(('%' in x or '${' in x or x.startswith('~')) for x in r1[1][name]):
-                        continue
-                    mine = ssh_render(knd, r1[1][name])
-                else:
-                    mine = base.get(key, [])
-                if knd == 'multi' and (two or name != 'SendEnv'):
-                    mine, theirs = dedupe(mine), dedupe(theirs)
-                if ssh_norm(knd, mine) != ssh_norm(knd, theirs):
-                    print('differs:', name, 'asyncssh', mine, 'ssh', theirs)
-                    bad = 1
-            return bad
+            r1, two = resolve_like(w, main, rp['host'], user, port, luser, 'actual')
+            diffs = ssh_diffs(r1, out, base, two)
+            for dd in diffs:
+                print('differs (option, asyncssh, ssh):', dd)
+            return 1 if diffs else 0
         print('unknown replay kind', kind)
         return 2
     finally:
